@@ -331,6 +331,9 @@ fn flush_output_buffer(
 ) {
     let captured = std::mem::take(&mut *buf.lock().expect("output buffer poisoned"));
     if !captured.is_empty() {
+        #[cfg(wilfred_garden_verif)]
+        crate::verif_hook::delay_point("flush_mid");
+
         let mut msg = base_msg.clone();
         msg.insert(key.to_vec(), bstr(captured));
         let _ = response_tx.send(Value::Dict(msg));
@@ -849,8 +852,14 @@ fn session_worker(
     let mut env = Env::new(id_gen, vfs);
 
     while let Ok(req) = request_rx.recv() {
+        #[cfg(wilfred_garden_verif)]
+        crate::verif_hook::delay_point("dequeue");
+
         // Clear any stray interrupt set while the session was idle.
         interrupted.store(false, Ordering::SeqCst);
+
+        #[cfg(wilfred_garden_verif)]
+        crate::verif_hook::delay_point("after_reset");
 
         let stdout_buf = Arc::new(Mutex::new(String::new()));
         let stderr_buf = Arc::new(Mutex::new(String::new()));
@@ -903,6 +912,9 @@ fn session_worker(
                 handle_lookup(&env, &sym, &base_msg, temp_built_in_files.as_ref().as_ref())
             }
         };
+        #[cfg(wilfred_garden_verif)]
+        crate::verif_hook::delay_point("before_done");
+
         for r in responses {
             if response_tx.send(r).is_err() {
                 return;
@@ -1215,6 +1227,9 @@ fn handle_message(conn: &mut Connection, request: &HashMap<Vec<u8>, Value>) {
             let session_id = dict_get(request, "session").and_then(as_str);
             match session_id.and_then(|s| conn.sessions.get(s)) {
                 Some(s) => {
+                    #[cfg(wilfred_garden_verif)]
+                    crate::verif_hook::delay_point("interrupt");
+
                     s.interrupted.store(true, Ordering::SeqCst);
                     let mut msg = base;
                     msg.insert(b"status".to_vec(), Value::List(vec![bstr("done")]));
